@@ -400,6 +400,8 @@ class URL:
                 raise TypeError(f"The port is required to be int, got {type(port)!r}.")
             if not (0 <= port <= 65535):
                 raise ValueError(f"port must be between 0 and 65535, got {port}")
+            # an int subclass (e.g. an IntEnum member) may render differently
+            port = int(port)
         if port and not host:
             raise ValueError('Can\'t build URL with "port" but without "host".')
         if query and query_string:
@@ -1150,6 +1152,8 @@ class URL:
                 raise TypeError(f"port should be int or None, got {type(port)}")
             if not (0 <= port <= 65535):
                 raise ValueError(f"port must be between 0 and 65535, got {port}")
+            # an int subclass (e.g. an IntEnum member) may render differently
+            port = int(port)
         if not (netloc := self._netloc):
             raise ValueError("port replacement is not allowed for relative URLs")
         encoded_host = self.host_subcomponent or ""
